@@ -4,7 +4,8 @@ import json, glob, os, re
 rows = []
 for f in sorted(glob.glob('/verif/seeded/*/meta.json')):
     m = json.load(open(f))
-    det = sorted({d['check'] for d in m.get('detected_by', [])})
+    det = sorted({d['check'] for d in m.get('detected_by', []) if d.get('tier') == 'quick'})
+    det += sorted({d['check'] + ' (thorough)' for d in m.get('detected_by', []) if d.get('tier') != 'quick' and d['check'] not in det})
     nd = m.get('not_detected_by', [])
     first = ''
     for d in m.get('detected_by', []):
@@ -13,8 +14,8 @@ for f in sorted(glob.glob('/verif/seeded/*/meta.json')):
             break
     summ = re.sub(r'^#+\s*', '', m.get('summary', ''))[:90].replace('|', '/')
     rows.append(f"| {m['id']} | {summ} | {', '.join(det) if det else '—'} | {first.replace('|','/')} |")
-table = "| seeded change | what it is (author's words, truncated) | caught by (quick tier) | first signature |\n|---|---|---|---|\n" + "\n".join(rows)
-caught = sum(1 for r in rows if '| — |' not in r)
+table = "| seeded change | what it is (author's words, truncated) | caught by (quick tier unless noted) | first signature |\n|---|---|---|---|\n" + "\n".join(rows)
+caught = sum(1 for f in glob.glob('/verif/seeded/*/meta.json') if any(d.get('tier') == 'quick' for d in json.load(open(f)).get('detected_by', [])))
 table = f"{caught} of {len(rows)} seeded changes are caught by the quick tier of at least one check.\n\n" + table
 p = '/verif/DESIGN.md'
 s = open(p).read()
